@@ -480,6 +480,10 @@ def api_level(res, rng, configs, sizes, n_queries):
             Qlog = np.array(rows)
             if kind == "sparse":
                 Q = sp.csr_matrix(Qlog.astype(np.float32))
+                if (n // 2) % 2 == 0:
+                    # callers also hand over CSR matrices whose rows are not in column order (built from raw indptr/indices/data)
+                    from harness import api as _api
+                    Q = _api.unsort_csr(np.random.default_rng(int(rng.integers(1 << 30))), Q)
             elif kind == "bits":
                 Q = Qlog.astype(np.uint8)
             else:
